@@ -17,7 +17,7 @@ RULE = ('cases from one PRNG state: signals real / complex / strongly coloured (
         'N in 16..256 (quick) or ..4096 (thorough), orders 1..min(16,N/4); estimators LD and YW with computed and supplied '
         '(biased, unbiased, exact-AR) autocorrelation; AR_psd for sides x parity x real/complex stable coefficient sets; '
         'ar_generator with supplied noise and dropped transients; distinct = distinct protocol line; '
-        'ill-conditioned Toeplitz systems (cond > 1e6) are skipped and counted')
+        'ill-conditioned Toeplitz systems (cond > 1e5) are skipped and counted')
 ASSUMPTIONS = ['order >= 1 and at least order+1 autocorrelation lags are available (the code indexes rxx[1])',
                'every number the recursion divides by is non-zero (hypothesis DivisorsOK of the theorems); ill-conditioned cases skipped and counted',
                'R(0) is real (true for autocorr output; supplied sequences are generated with a real lag-0 term)',
@@ -33,7 +33,7 @@ TRUSTED_EXTRA = [
 ]
 
 STATS = {'skipped_ill_conditioned': 0, 'cond_max_compared': 0.0}
-COND_MAX = 1e6
+COND_MAX = 1e5
 
 
 def mods():
@@ -321,7 +321,7 @@ def cases(rng, tier, seed):
         out.append(mk_case(m, clause, cmp_est(abs(r[0]))))
 
     # --- estimators on signals (computed autocorrelation)
-    n_sig = 60 if not big else 700
+    n_sig = 200 if not big else 4000
     for i in range(n_sig):
         kind = KINDS[i % 4]
         N = int(nrng.choice([16, 17, 31, 32, 64, 100, 128, 256] + ([512, 1000, 2048, 4096] if big else [])))
@@ -335,7 +335,7 @@ def cases(rng, tier, seed):
             m = {'op': 'autocorr', 'nl': nl, 'data': clist(x), 'cplx': cplx}
             out.append(mk_case(m, 'autocorr/' + ('complex' if cplx else 'real'), cmp_groups('c')))
     # --- estimators with a supplied autocorrelation
-    n_sup = 60 if not big else 700
+    n_sup = 200 if not big else 4000
     for i in range(n_sup):
         sub = i % 3
         cplx = bool(nrng.rand() < 0.5)
@@ -363,7 +363,7 @@ def cases(rng, tier, seed):
         for op in ('ld', 'yw'):
             est_case(op, r, order, cplx, 'est/%s/supplied/%s' % (op.upper(), tag), extra)
     # --- AR_psd
-    n_psd = 40 if not big else 400
+    n_psd = 120 if not big else 800
     for i in range(n_psd):
         cplx = bool(i % 2)
         one = bool((i // 2) % 2)
@@ -374,7 +374,7 @@ def cases(rng, tier, seed):
         m = {'op': 'psd', 'one': one, 'nf': nf, 'sigma': sig, 'ak': clist(ak), 'cplx': cplx}
         out.append(mk_case(m, 'psd/%s/%s' % ('onesided' if one else 'twosided', 'odd' if nf % 2 else 'even'), cmp_groups('ff')))
     # --- ar_generator
-    n_gen = 30 if not big else 300
+    n_gen = 90 if not big else 500
     for i in range(n_gen):
         cplx = bool(i % 3 == 2)
         p = int(nrng.randint(1, 7))
